@@ -7,10 +7,13 @@ package main
 import (
 	"bytes"
 	"context"
+	"crypto/sha256"
+	"encoding/hex"
 	"encoding/json"
 	"net/http"
 	"net/http/httptest"
 	"reflect"
+	"sync"
 
 	apifu "github.com/ccbrown/api-fu"
 	"github.com/ccbrown/api-fu/graphql"
@@ -22,6 +25,23 @@ type thing struct {
 }
 
 type featKey struct{}
+
+type memStorage struct {
+	mu sync.Mutex
+	m  map[string]string
+}
+
+func (s *memStorage) GetPersistedQuery(ctx context.Context, hash []byte) string {
+	s.mu.Lock()
+	defer s.mu.Unlock()
+	return s.m[string(hash)]
+}
+
+func (s *memStorage) PersistQuery(ctx context.Context, query string, hash []byte) {
+	s.mu.Lock()
+	defer s.mu.Unlock()
+	s.m[string(hash)] = query
+}
 
 // the description of what apifuAPI(true, _) builds, written by hand; the check compares it with the
 // real schema's introspection answers like any other description
@@ -65,6 +85,7 @@ func apifuAPI(gated, registerPageInfo bool, log *calls) (*apifu.API, error) {
 	}
 	things := []*thing{{"t1", 1}, {"t2", 2}, {"t3", 3}}
 	cfg := &apifu.Config{
+		PersistedQueryStorage: &memStorage{m: map[string]string{}},
 		Features: func(ctx context.Context) graphql.FeatureSet {
 			fs, _ := ctx.Value(featKey{}).(graphql.FeatureSet)
 			return fs
@@ -118,15 +139,29 @@ func apifuAPI(gated, registerPageInfo bool, log *calls) (*apifu.API, error) {
 
 // runHTTP serves one request through API.ServeGraphQL; the verdict is read off the response (no
 // data member = refused before execution).
-func (s *side) runHTTP(query string, vars map[string]interface{}) *observation {
-	o := &observation{}
-	body, _ := json.Marshal(map[string]interface{}{"query": query, "variables": vars})
-	ctx := context.WithValue(context.Background(), featKey{}, s.features)
+func (s *side) post(payload map[string]interface{}, features graphql.FeatureSet) *httptest.ResponseRecorder {
+	body, _ := json.Marshal(payload)
+	ctx := context.WithValue(context.Background(), featKey{}, features)
 	r := httptest.NewRequest("POST", "/graphql", bytes.NewReader(body)).WithContext(ctx)
 	r.Header.Set("Content-Type", "application/json")
 	w := httptest.NewRecorder()
-	s.log.take()
 	s.api.ServeGraphQL(w, r)
+	return w
+}
+
+func (s *side) runHTTP(query string, vars map[string]interface{}) *observation {
+	o := &observation{}
+	payload := map[string]interface{}{"query": query, "variables": vars}
+	if s.persisted {
+		sum := sha256.Sum256([]byte(query))
+		ext := map[string]interface{}{"persistedQuery": map[string]interface{}{"version": 1, "sha256Hash": hex.EncodeToString(sum[:])}}
+		// registered by a request that may see everything ...
+		s.post(map[string]interface{}{"query": query, "variables": vars, "extensions": ext}, graphql.NewFeatureSet(alphabet...))
+		// ... replayed by hash alone with this side's features
+		payload = map[string]interface{}{"variables": vars, "extensions": ext}
+	}
+	s.log.take()
+	w := s.post(payload, s.features)
 	o.calls = s.log.take()
 	if w.Code != http.StatusOK {
 		panic("ServeGraphQL answered " + w.Result().Status)
